@@ -1,5 +1,6 @@
 """C16 deductive part (label S: all real values, bounded tensor shapes): the projected-gradient update block of both engines,
 executed symbolically from the real source on r x c tensors of symbolic reals (see vf/contracts/adv_update.py)."""
+from ..contracts.adv_gradflow import TorchGradFlow
 from ..contracts.adv_update import UpdateBlock
 from ..pyvc import verify
 
@@ -21,3 +22,15 @@ def run_deductive(rep):
                 items.append((UpdateBlock(eng, [shp], tz), can))
         items.append((UpdateBlock(eng, [(2, 2), (1, 3)], True), []))
     verify.verify_many(rep, items, label="S", timeout_ms=90000)
+
+    def both(old):
+        def t(fn):
+            verify.replace_expr(old, "None")(fn)
+            verify.replace_expr(old, "None")(fn)
+        return t
+    flow = [(TorchGradFlow(False), [("adversary_buffers_never_cleared", both("self.adversary_optimizer.zero_grad()")),
+                                    ("predictor_buffers_not_cleared_between_the_two_backward_passes", verify.replace_expr("self.predictor_optimizer.zero_grad()", "None", 1)),
+                                    ("adversary_does_not_see_the_predictor_output", verify.replace_expr("self.adversary_model(Y_hat)", "self.adversary_model(Y)"))]),
+            (TorchGradFlow(True), [("y_not_passed_for_equalized_odds", verify.replace_expr("torch.cat((Y_hat, Y), dim=1)", "Y_hat"))])]
+    rep.trust("torch autograd bookkeeping: .grad buffers accumulate, zero_grad empties them, backward adds the gradient of that loss (assumed); tensors opaque in the gradient-flow contract")
+    verify.verify_many(rep, flow, label="P")
